@@ -27,6 +27,7 @@ var (
 	flagLimit   = flag.Int("limit", 0, "debug: evaluate only the first N cases (in spreading order)")
 	flagWorkers = flag.Int("workers", 16, "number of worker subprocesses")
 	flagBudget  = flag.Int("budget", 0, "debug: override the internal deadline (seconds)")
+	flagReplay  = flag.String("replay", "", "replay file written for a violation: run only its case, verbosely")
 	flagOne     = flag.String("one", "", "debug: run only the requests whose description contains this text, verbosely")
 )
 
@@ -324,6 +325,23 @@ func main() {
 			harnessErr("corpus: %v", err2)
 		}
 		f.Close()
+	}
+	if *flagReplay != "" {
+		buf, err2 := os.ReadFile(*flagReplay)
+		if err2 != nil {
+			harnessErr("replay: %v", err2)
+		}
+		var rp struct {
+			Replay map[string]any `json:"replay"`
+		}
+		if err2 = json.Unmarshal(buf, &rp); err2 != nil {
+			harnessErr("replay: %v", err2)
+		}
+		t, _ := rp.Replay["request"].(string)
+		if t == "" {
+			harnessErr("replay: %s names no case", *flagReplay)
+		}
+		*flagOne = t
 	}
 	if *flagOne != "" {
 		var cs []Case
